@@ -450,9 +450,8 @@ class Fresh:
         return None
 
 
-KNOWN_E = "KNOWN-E-lazynode-memo-address-reuse"
-# wrappers whose children are created by the `pair` accessor and die as soon as the walk drops them
-EPHEMERAL = ("LazyNode", "Fresh")
+# (LazyNode and Fresh are the wrappers whose children are created by the `pair` accessor and would die
+# as soon as the walk dropped them: finding E, repaired by /repo 6e19398; any failure is a plain failure)
 
 
 def wrappers(v, blob):
@@ -498,8 +497,6 @@ def oracle_c27(seed, n, tier):
                 rep.sample("%s %s -> %s" % (name, hx[:40], enc.hex()[:60]))
                 continue
             desc = "class=%s tree=%s ser_2026=%s decoded=%s lazy_view=%s" % (name, hx, enc.hex(), got.hex(), direct.hex())
-            if name in EPHEMERAL:
-                desc = KNOWN_E + " " + desc
             rep.fail("c27_roundtrip", desc)
             rep.hit("mismatch:" + name)
     rep.emit()
